@@ -439,6 +439,52 @@ pub fn gen_c14(out: &mut Out, rng: &mut Rng, thorough: bool) {
 /// line noise that arrives in several bursts (RTU): each burst is too short to exhaust the
 /// decoder's patience, the bursts together are not; a request behind them is still served and
 /// a close on the frame boundary behind it is silent
+/// a run of bytes that can start no frame, longer than the RTU decoder's patience (20 retries)
+/// and delivered in ONE read, then a valid request: the connection ends with one report of the
+/// malformed input and the request behind it is not served
+pub fn gen_c14_junk_runs(out: &mut Out, rng: &mut Rng, _thorough: bool) {
+    let req = frame("rtu", 0, 0x11, &[0x03, 0x00, 0x01, 0x00, 0x01]);
+    for n in 21..=48usize {
+        let b = *rng.pick(&[0x66u8, 0x64, 0x6E, 0x41]);
+        let junk = vec![b; n];
+        monitor_line(out, &format!("srv rtu svc=R=RHR:0001 r=d{},d{} junkrun=1", hex_raw(&junk), hex_raw(&req)));
+        let mut both = junk.clone();
+        both.extend(&req);
+        monitor_line(out, &format!("srv rtu svc=R=RHR:0001 r=d{} junkrun=1", hex_raw(&both)));
+    }
+}
+
+pub fn mon_c14_junk_runs(out: &mut Out, l: &str, r: &str) -> bool {
+    if !l.contains(" junkrun=1") {
+        return false;
+    }
+    let ps = parts(r);
+    let end = ps.last().copied().unwrap_or("");
+    out.check(end == "end failed:id", || format!("more than 20 bytes that start no frame, in one read: the connection must end with one InvalidData report, got `{end}`"), l);
+    out.check(!ps.iter().any(|p| p.starts_with("call ")), || "a request behind the malformed input was served".into(), l);
+    true
+}
+
+/// a write fault of every kind inside the second reply of a pipelined pair, both servers
+pub fn gen_c07_write_faults(out: &mut Out, rng: &mut Rng, _thorough: bool) {
+    for kind in ["tcp", "rtu"] {
+        let unit = rng.unit();
+        let mut data = vec![];
+        for i in 0..3u16 {
+            data.extend(frame(kind, i + 1, unit, &spec::request_bytes(&Request::ReadHoldingRegisters(i, 1)).unwrap()));
+        }
+        let svc = "R=RHR:0001,R=RHR:0002,R=RHR:0003";
+        let first = if kind == "tcp" { 11 } else { 7 };
+        let mut faults: Vec<String> = (0..crate::wire::INJECTED.len()).map(|k| format!("xk{k}")).collect();
+        faults.extend(["xot", "xbp", "xto", "z"].iter().map(|s| s.to_string()));
+        for f in faults {
+            let k = rng.range(0, 4);
+            let w = if k == 0 { format!("a{first},{f}") } else { format!("a{first},a{k},{f}") };
+            monitor_line(out, &format!("srv {kind} svc={svc} w={w} r=d{} wf=1", hex_raw(&data)));
+        }
+    }
+}
+
 pub fn gen_c14_noise_bursts(out: &mut Out, rng: &mut Rng, thorough: bool) {
     for _ in 0..(if thorough { 400 } else { 40 }) {
         let mut evs: Vec<String> = vec![];
@@ -492,7 +538,7 @@ fn mon_c14_noise_bursts(out: &mut Out, l: &str, r: &str) -> bool {
 }
 
 pub fn mon_c14(out: &mut Out, l: &str, r: &str) {
-    if mon_c14_noise_bursts(out, l, r) {
+    if mon_c14_noise_bursts(out, l, r) || mon_c14_junk_runs(out, l, r) {
         return;
     }
     let t: Vec<&str> = l.split(' ').collect();
